@@ -121,8 +121,12 @@ ObjInsert(p, mc, sec, r) ==
       st == [p |-> q, v |-> ViewOf(q), c |-> [off |-> 0, ne |-> 0, nx |-> 0, tomb |-> TRUE]]
       rr == RRWire(r) IN
   IF Len(q) + Len(rr) > 8192 THEN [ok |-> FALSE, p |-> q, v |-> ViewOf(q)]
+  ELSE IF r.t = TOPT /\ (sec # "AR" \/ st.v.oedns # 0 \/ r.n # <<>> \/ ~OptionsOK(r.fixed, 0)) THEN [ok |-> FALSE, p |-> q, v |-> ViewOf(q)]
   ELSE IF U16(q, CountOff(sec)) >= 65535 THEN [ok |-> FALSE, p |-> q, v |-> ViewOf(q)]
-  ELSE LET s2 == Insert(st, sec, rr) IN [ok |-> TRUE, p |-> s2.p, v |-> s2.v]
+  ELSE LET s2 == Insert(st, sec, rr) IN
+       \* an OPT record brings the EDNS summary with it: its options start behind the root owner and the fixed part
+       [ok |-> TRUE, p |-> s2.p,
+        v |-> IF r.t = TOPT THEN [s2.v EXCEPT !.oedns = Len(q) + 11, !.ecount = OptionCount(r.fixed, 0)] ELSE s2.v]
 
 \* RR::new_question(name, AAAA, IN) inserted into the question section
 ObjInsertQ(p, mc, labels) ==
